@@ -581,6 +581,12 @@ def _gen_office():
         out["gen/long-b.epub"] = simple.render_epub(long_doc(2))
         out["gen/long-a.html"] = simple.render_html(long_doc(3))
         out["gen/long-b.html"] = simple.render_html(long_doc(4))
+        # documents whose pictures have the same length but other bytes: a cache keyed by anything but the content (an address, a size) mixes them up
+        from vf.props import c14
+        for fmt_ in ("docx", "epub", "odt"):
+            for tag, sd in (("a", 11), ("b", 12), ("c", 13)):
+                case = {"format": fmt_, "opts": {}, "units": [[{"k": "p", "tok": make("B", 7900 + sd)}, {"k": "img", "type": "bmp", "w": 9, "h": 9, "seed": sd}, {"k": "img", "type": "bmp", "w": 9, "h": 9, "seed": sd + 20}]]}
+                out[f"gen/samesize-{tag}.{fmt_}"] = c14.build(case)[0]
         out["gen/nopath-plain.docx"] = ooxml.render_docx(doc(11))
         out["gen/nopath-plain.pptx"] = ooxml.render_pptx(doc(12))
     except Exception as e:  # noqa
@@ -611,7 +617,7 @@ def build_pool() -> dict[str, bytes]:
 
 PAIRS = [("gen/cid-a.pdf", "gen/cid-b.pdf"), ("gen/bad-operands.pdf", "gen/cid-a.pdf"), ("gen/aes256r5-empty.pdf", "gen/aes128-empty.pdf"), ("gen/cid-c.pdf", "gen/cid-a.pdf"), ("gen/comments.pptx", "gen/plain.pptx"),
          ("gen/comments.docx", "gen/plain.docx"), ("modern_ms/pptx_table.pptx", "gen/plain.pptx"), ("open_office/slide_with_notes.odp", "gen/plain.odp"), ("open_office/headings.odt", "gen/plain.odt"), ("gen/macosx-report.zip", "gen/notes-report.zip"), ("gen/hidden-dir.zip", "gen/visible-dir.zip"),
-         ("archives/test_archive.zip", "gen/notes-report.zip"), ("gen/nometa-a.odt", "gen/nopath-nometa-b.odt"), ("gen/nometa-a.odp", "gen/nopath-nometa-b.odp"), ("gen/nocore-a.pptx", "gen/nopath-nocore-b.pptx"), ("gen/nocore-a.docx", "gen/nopath-nocore-b.docx"),
+         ("archives/test_archive.zip", "gen/notes-report.zip"), ("gen/nometa-a.odt", "gen/nopath-nometa-b.odt"), ("gen/nometa-a.odp", "gen/nopath-nometa-b.odp"), ("gen/nocore-a.pptx", "gen/nopath-nocore-b.pptx"), ("gen/samesize-a.docx", "gen/samesize-b.docx"), ("gen/samesize-b.docx", "gen/samesize-c.docx"), ("gen/samesize-a.epub", "gen/samesize-b.epub"), ("gen/samesize-a.odt", "gen/samesize-b.odt"), ("gen/nocore-a.docx", "gen/nopath-nocore-b.docx"),
          ("gen/plain.docx", "gen/nopath-plain.docx"), ("gen/plain.pptx", "gen/nopath-plain.pptx")]
 
 
